@@ -59,3 +59,10 @@ Definition s_read (f : list N) (expected : list (list N * list N)) : list N :=
   if list_eqb f (str "none") then f else
   f ++ [124] ++ join [59] (map show_rec (number_from 0 expected)) ++ [124] ++
   dec_nat (List.length expected) ++ comma ++ dec_nat (fold_right (fun r a => (List.length (snd r) + a)%nat) 0%nat expected).
+
+(* records handed over as a list and serialised by the harness into a container (FASTA / FASTQ, plain or gzip in
+   one or several members): the reader must deliver them back, numbered, ids r0, r1, ... *)
+Definition show_readc (recs : list (list N)) : list N :=
+  let numbered := number_from 0 (map (fun s => ([] : list N, s)) recs) in
+  join [59] (map (fun r => dec_nat (fst r) ++ colon ++ (114 :: dec_nat (fst r)) ++ colon ++ to_hex (snd (snd r))) numbered) ++ [124] ++
+  dec_nat (List.length recs) ++ comma ++ dec_nat (fold_right (fun r a => (List.length r + a)%nat) 0%nat recs).
